@@ -159,9 +159,11 @@ def id_sets(ctx):
     # adversarial: no magic exists (RuntimeError path), and near-adversarial
     c = rnd.randrange(2**31)
     sets += [tuple(c + 60 * k for k in range(5)), tuple(c + 60 * k for k in range(4)), tuple(range(7))]
-    sizes = list(range(1, 25)) + [rnd.randrange(25, 81) for _ in range(3 if ctx.tier == "quick" else 30)] + [80]
-    if ctx.tier == "thorough":
-        sizes += list(range(25, 80, 3))
+    # model evaluation cost (vm_compute) is dominated by failing magic searches: ~10-20 s CPU per set above ~10 ids
+    if ctx.tier == "quick":
+        sizes = list(range(1, 10)) * 2 + [11, 14, rnd.randrange(15, 30), rnd.randrange(30, 60), rnd.randrange(60, 80), 80]
+    else:
+        sizes = list(range(1, 10)) * 6 + list(range(10, 81, 2)) + [80]
     for n in sizes:
         s = set()
         while len(s) < n:
@@ -197,7 +199,7 @@ def part_tables(ctx, model_ok):
             zl = coqrun.zlist(ids)
             exprs.append(f"enc_dense {zl}"); expect.append(enc_d); names.append(("generate_dense_jumptable_info", ids))
             exprs.append(f"enc_sparse {zl}"); expect.append(enc_s); names.append(("generate_sparse_jumptable_buckets", ids))
-            if len(ids) <= 12:
+            if len(ids) <= 9:
                 exprs.append(f"enc_magic {zl}"); expect.append(jt.magic(ids)); names.append(("find_magic_for", ids))
                 for n in sorted({0, 1, len(ids), rnd.randrange(1, 9)}):
                     exprs.append(f"enc_mk {zl} {n}"); expect.append(jt.mk(ids, n)); names.append((f"_mk_buckets n={n}", ids))
@@ -217,7 +219,7 @@ def part_tables(ctx, model_ok):
         return len(exprs), found
     # biggest first so that shards balance
     shards = 12
-    bysize = sorted(range(len(exprs)), key=lambda i: -len(names[i][1]))
+    bysize = sorted(range(len(exprs)), key=lambda i: (-len(names[i][1]), names[i][0]))
     order = [i for j in range(shards) for i in bysize[j::shards]]
     outs = [None] * len(exprs)
     got = coqrun.eval_zlists(IMPORTS, [exprs[i] for i in order], "c07tab",
@@ -316,7 +318,7 @@ def part_dispatch(ctx, model_ok):
         metas.append((ci, es, calls))
     sub = []  # model dispatchers on a subset (they are proved equal to the spec; this exercises the executable models)
     for ci, es, calls in metas:
-        if 0 < len(es) <= 20:
+        if 0 < len(es) <= 9:
             fns, fb = contracts[ci]
             fns_c = "[" + "; ".join(coq_entry(e, i) for i, e in enumerate(es)) + "]"
             fb_c = "None" if fb is None else f"(Some {'true' if fb else 'false'})"
